@@ -229,6 +229,8 @@ func C13Configs(thorough bool) []*world.Config {
 	cfgs = append(cfgs, world.UintCfg(2, urange(1, 5), 1, B, "none"))
 	cfgs = append(cfgs, world.UintCfg(2, urange(1, 4), 2, M, "none"))
 	cfgs = append(cfgs, world.UintCfg(3, ulist(1, 2, 3, 4, 6, 9), 1, B, "none"))
+	// slice values: re-inserting an equal value must be recognised as "nothing modified"
+	cfgs = append(cfgs, world.IntCfg(2, []int{1, 2, 3, 4}, []interface{}{[]int{1}, []int{2, 3}}, []int{}, M, "none"))
 	cfgs = append(cfgs, world.UintCfg(2, ulist(1, 2, 4), 1, B, "big"))
 	cfgs = append(cfgs, depth(world.UintCfg(2, urange(1, 5), 1, M, "big"), 7))
 	for _, l := range lkeyQuick[:4] {
